@@ -533,7 +533,7 @@ def validate_traces(trace_spec: str, cfg: str, traces: list, *,
 
 
 def validate_total(trace_spec: str, cfg: str, traces: list, *,
-                   timeout: int = 1800) -> tuple[dict, TLCResult]:
+                   timeout: int = 1800, known: list | None = None) -> tuple[dict, TLCResult]:
     """Batch validation against a *total* observer (Trace_Sync idiom): the spec
     never rejects, it records the first failed clause.  Returns
     {tid(1-based): (line(1-based, 0 = accepted), clause)}."""
@@ -541,12 +541,16 @@ def validate_total(trace_spec: str, cfg: str, traces: list, *,
     try:
         path = os.path.join(d, 'traces.json')
         with open(path, 'w') as f:
-            json.dump({'traces': traces}, f)
+            json.dump({'traces': traces, 'known': list(known or [])}, f)
         res = run_tlc(trace_spec, cfg, workers=1, timeout=timeout,
                       deadlock=False, env={'TRACE_FILE': path})
     finally:
         shutil.rmtree(d, ignore_errors=True)
     out = {}
-    for m in re.finditer(r'<<"VERDICT", (\d+), (\d+), "([^"]*)">>', res.output):
-        out[int(m.group(1))] = (int(m.group(2)), m.group(3))
+    for m in re.finditer(r'<<"VERDICT", (\d+), (\d+), "([^"]*)"(?:, \{([^}]*)\})?>>', res.output):
+        if m.group(4) is not None:
+            used = [x.strip().strip('"') for x in m.group(4).split(',') if x.strip()]
+            out[int(m.group(1))] = (int(m.group(2)), m.group(3), used)
+        else:
+            out[int(m.group(1))] = (int(m.group(2)), m.group(3))
     return out, res
